@@ -334,6 +334,12 @@ let register (reg : string -> (Sx.t list -> Sx.t) -> unit) : unit =
         let served = (match s.SignOutRace.p_req with SignOutRace.PDone (SignOutRace.Served _) -> true | _ -> false) in
         L [wr_bool (s.SignOutRace.store <> None); wr_bool served]
       | _ -> raise (Bad "signout_race arity"));
+  (* two requests at a provider without refresh whose validation refuses the session: who is served *)
+  reg "stamp_race" (function
+      | [sched] ->
+        let s = StampRace.run false StampRace.init (rd_list rd_bool sched) in
+        L [wr_bool (StampRace.is_served s.StampRace.p0); wr_bool (StampRace.is_served s.StampRace.p1)]
+      | _ -> raise (Bad "stamp_race arity"));
   reg "upstream_route" (function
       | [ups; mt; mpath; upath; probe] ->
         let l = rd_list (function
